@@ -25,7 +25,20 @@ Spaces (DESIGN.md section 4, C03):
               {None(=0), pi/3, generic ndarray, generic through circ.P placeholder + setP}. Each history is executed on
               a fresh Circuit; checked: to_unitary() == ordered product of reference embeddings, unitarity,
               apply_state(generic psi) == U_ref psi, reduce_to_probability of the output for every keep-set == Born marginal.
+              After the validation every history with a placeholder gate gets a SECOND setP with other values (re-validated), every
+              sub-circuit passed to extend_circuit is checked to be unchanged (gate_index_list, unitary), depth-1 histories are also
+              applied to a state one qubit wider than num_qubit, and shift_qubit_index_(0) is an event.
+    holder  : gate1(placeholder); cnot; gate2(placeholder) for every addressing scheme of circ.P (P[k], P[i] + positional setP, P[k][i],
+              P[k][i,j], P[i,j], one key / one element shared by two gates, list / tuple / ndarray containers) x every leaf container
+              (float, np.float64, length-1 array/list; tuple/list/array of 3 for u3) x three setP rounds (first, second, partial update)
+    gateobj : one Gate object at two positions (append_gate) x ParameterGate.set_args forms (list, tuple, ndarray, list + matrix) x order
+              (append/set), copy() independence in both directions (ParameterGate, plain Gate, copy of a placeholder gate), a registered
+              gate of kind 'custom' at every program position, Circuit methods with an empty control set (== the uncontrolled gate)
+    argform : every vocabulary method with np.int64 indices and set / frozenset / list / tuple / ndarray / set[np.int64] control collections
     gatedef : the matrix stored by every vocabulary method equals the documented formula (finite parameter alphabet).
+  Thin slices n = 5 (quick), 5..6 (thorough) for dm / expect: every ordered target tuple x thin_matrix_units(rho) x thin_ops.
+  Further coordinates of `gate`: np.int64 / list / ndarray index forms, list / tuple / frozenset / ndarray / reversed-list control
+  collections, the EMPTY control set (== apply_gate), dtype alphabet {float64, int64 basis states} x {complex, real, integer operator}.
 Oracle: kron + explicit axis permutation (mc.ref.embed), controlled gate as (1-P) + P.embed(U) (mc.ref.controlled),
 Born marginals by a loop over basis indices, documented closed forms of the parametrised gates.
 """
@@ -39,25 +52,36 @@ PROPERTY = 'C03'
 GUARD = ['numqi.sim.state', 'numqi.sim.dm']  # argument-immutability oracle (mc.seams.ImmutabilityGuard)
 GUARD_LAYOUT = ['numqi.sim.state', 'numqi.sim.dm']  # memory-layout metamorphic oracle (same wrapper)
 LEVEL = 'model_checking'
+# additions whose oracle fires on the pinned tree (reported, awaiting a repair of numqi): skipped and counted as pending/<flag>
+PENDING = set()
 RULE = ('primitives: every (ordered target tuple of size 1..3, disjoint control subset) on n qubits x all matrix units of the '
         'operator (polarisation set where the map is sesquilinear) x all basis vectors / matrix units of the state, plus generic atoms; '
         'programs: every history up to the depth bound over the Circuit vocabulary x all wirings x the parameter alphabet, each on a fresh '
         'Circuit. state = one (index pattern, operator, input) point or one history; transition = one implementation call compared with '
         'the kron/permutation reference; trace = one program validated (to_unitary, apply_state, all marginals). non-trivial = the observed '
-        'output differs from the input (gate acted) / the program unitary is not the identity')
+        'output differs from the input (gate acted) / the program unitary is not the identity. '
+        'Added coordinates: second setP call and partial update, every placeholder addressing scheme x leaf container (kind holder), one Gate '
+        'object at two positions x set_args form x copy() (kind gateobj), kind=custom gates, np.int64 / collection argument forms (kind argform '
+        'and extra forms of the primitives), empty control set, real and integer dtypes, sub-circuit unchanged after extend_circuit + shift, '
+        'state wider than num_qubit, shift by 0, empty op_list, thin slices of dm / expectation for n = 5..6 (all ordered target tuples x '
+        'matrix units on the diagonal, first row, first column and anti-diagonal of rho)')
 ASSUMPTIONS = [
     'kron + explicit axis permutation (qubit 0 = most significant factor, "count from left to right |0123>") is the embedding',
     'the primitives are multilinear in (operator, state) [einsum/reshape/slice assignment only]; spot-checked by generic atoms and a linearity residual per index pattern',
     'parametrised gates are defined by their docstring formulas exp(-i theta P/2), u3 = Rz(phi)Ry(theta)Rz(lambda)e^{i(phi+lambda)/2}',
     'num_qubit of a circuit is 1 + the largest index used (documented by Circuit.num_qubit); histories without a gate and shifts to negative indices are outside the domain',
     'measure / kraus gates are not part of this property (C11 / not supported by apply_state)',
+    'circ.P semantics: P[k] / P[i] / P[k][i] / P[k][i,j] resolve by plain python indexing into what setP stored (positional argument under the key ""); setP re-binds every placeholder '
+    'gate on every call and keeps keys that are not passed again; a 0-d array value, set_args(scalar), extend_circuit(self) and holders of another circuit are outside the domain',
+    'collections other than the documented int / tuple / set (list, ndarray, frozenset) and integer-dtype states are not promised: a TypeError / precondition assert is counted as a refusal, '
+    'an accepted call must give the reference result',
+    'n = 5..6 for dm / operator_expectation is a thin slice (every index pattern, thin operator/state alphabets), not the complete basis used for n <= 4',
+    'PENDING (oracle in place, skipped until numqi is repaired): ' + (', '.join(sorted(PENDING)) or 'none'),
 ]
 CHUNK = 1
 
 EPS = np.finfo(np.float64).eps
 C_SAFE = 1e3
-# additions whose oracle fires on the pinned tree (reported, awaiting a repair of numqi): skipped and counted as pending/<flag>
-PENDING = {'empty_control'}
 
 
 def tol_of(opnorm, statenorm, terms):
